@@ -51,7 +51,7 @@ def sources():
         ("samename_ledger", os.path.join(core.VERIF, "sim", "c12", "schemas", "samename", "ledger.xsd"), False, 2),
         ("harness_all", os.path.join(core.VERIF, "sim", "c12", "schemas"), True, 3),
         ("features", os.path.join(core.VERIF, "sim", "c12", "schemas", "features"), False, 4),
-        ("symlinked", os.path.join(core.VERIF, "sim", "c12", "schemas", "symlinked", "catalog"), False, 3),
+        ("symlinked", os.path.join(core.VERIF, "sim", "c12", "schemas", "symlinked", "catalog"), False, 5),
         ("dtd_default_ns", f"{fx}/dtd/default_namespace.dtd", False, 1),
         ("dtd_prefix_ns", f"{fx}/dtd/prefix_namespace.dtd", False, 1),
         ("dtd_feed", os.path.join(core.VERIF, "sim", "c12", "dtd", "feed.dtd"), False, 2),
@@ -64,6 +64,9 @@ def sources():
     for k in range(1, 9):
         cands.append((f"gen{k}", os.path.join(core.VERIF, "sim", "c12", "schemas", f"gen{k}"), False, 1))
     return [c for c in cands if os.path.exists(c[1])]
+
+
+LOCATION_SENSITIVE = ("symlinked", "twins_v1", "twins_v2")
 
 
 def gen_params(rng):
@@ -140,6 +143,11 @@ def gen_env(rng, srcs):
         env["config_version"] = rng.choice(["24.1", "23.8", "99.1", "", "unknown"])
     if rng.random() < 0.1:
         env["optimize"] = 1  # python -O
+    if rng.random() < 0.12:
+        # a locale whose preferred encoding is ASCII: whatever is read or written without an explicit encoding differs
+        env["environ"] = dict(env.get("environ") or {}, LC_ALL="C", PYTHONUTF8="0", PYTHONCOERCECLOCALE="0")
+        if env.get("source_copy"):
+            env["source_copy"] = "checkout/src"
     if env.get("history") and rng.random() < 0.3:
         env["history_same_package"] = 1  # an earlier generation into the same package name from another directory
     return env
@@ -265,7 +273,10 @@ def check(args):
     pairs = []
     for i in range(npairs):
         s = rng.choices(srcs, weights)[0]
-        pairs.append((s, gen_params(rng)))
+        params = gen_params(rng)
+        if s[0] in LOCATION_SENSITIVE and rng.random() < 0.7:
+            params["structure_style"] = "filenames"  # the only style in which a file's location names its module
+        pairs.append((s, params))
     report = Report(PROP)
     agg = {"runs": 0, "envs": set(), "pairs_done": 0, "probe_changed": Counter(), "probe_runs": 0, "routes": Counter(), "perturb": Counter(), "exceptions": Counter(), "nontrivial": set(), "history_runs": 0}
     viols = {}
